@@ -3,6 +3,7 @@ package rules
 import (
 	"fmt"
 	"go/token"
+	"go/types"
 
 	"fpcheck/internal/core"
 
@@ -14,7 +15,7 @@ func init() {
 		ID: "C09",
 		Explanation: "WorkerPool mechanisms decided on SSA: (R1) panic isolation - the goroutine body that invokes jobs received from the job queue registers, before the job call, a deferred closure that calls recover() and, when a panic was recovered, invokes the configured handler exactly once; the job is called synchronously exactly once per receive and only when non-nil; (R2) cap - every increment of the worker counter happens under the pool's exclusive lock, dominated inside the same hold by workerCount < workerSizeMaximum, and is followed by exactly one `go` of the worker body, whose deferred exit decrements the counter exactly once under the lock; jobs are invoked nowhere else; " +
 			"(R3) a worker that dies from a panicking job wakes the spawn loop after its decrement (feasible-path enumeration through the recovered flag); (R4) accept/reject - Schedule never invokes or spawns its argument, hands it only to the queue's Offer, maps ErrQueueIsFull to ErrWorkerPoolJobQueueIsFull and passes other results through; ScheduleWithTimeout returns only Schedule's results, ErrWorkerPoolIsClosed, or ErrWorkerPoolScheduleTimeout after the deadline test; Invoke* wrap callee(val) exactly once. " +
-			"Not decided: exactly-once execution over all spawn-loop/loader/expiry interleavings (liveness), idle-expiry races, unsynchronised setters.",
+			"(R5) spawn requests (posted by Schedule and by dying workers) are consumed only by the spawn loop and each one taken leads to a sizing pass: a request that is taken and dropped leaves accepted jobs without a worker. Not decided: exactly-once execution over all spawn-loop/loader/expiry interleavings (liveness), idle-expiry races, unsynchronised setters.",
 		Trusted: commonTrusted,
 		Run:     runC09,
 	})
@@ -26,6 +27,7 @@ func runC09(c *core.Ctx) {
 	c.Rule("R2", "cap: worker counter incremented only under the exclusive pool lock after workerCount < workerSizeMaximum in the same hold, followed by exactly one worker spawn; exit decrements once under the lock; jobs run only in worker bodies", 2)
 	c.Rule("R3", "a worker killed by a panicking job posts a spawn-loop wake-up after its decrement", 1)
 	c.Rule("R4", "Schedule/ScheduleWithTimeout/Invoke* result and argument discipline", 4)
+	c.Rule("R5", "no spawn request is lost: the only consumers of the spawn-request channel sit in the spawn loop, and every request taken is followed (unless the pool is found closed) by a sizing pass before the next one is taken or the loop ends", 1)
 	// worker body: closure started with `go` that receives from jobQueue.GetChannel()
 	var body, spawner *ssa.Function
 	var goIns *ssa.Go
@@ -310,6 +312,82 @@ func runC09(c *core.Ctx) {
 					}
 				}
 				c.Check(bad == "" && nPanic > 0, "R3", "worker-exit/panic-path", p.Pos(exit.Pos()), fmt.Sprintf("%d feasible panic paths, each posts a spawn-loop wake-up after the decrement", nPanic), bad+": jobs already accepted are not run until the next Schedule (with workerSizeMaximum 1 the pool stalls)")
+			}
+		}
+	}
+	// ---------------- R5 consumers of the spawn-request channel
+	{
+		isReq := func(v ssa.Value) bool { return core.FieldKey(v) == "DefaultWorkerPool.spawnWorkerCh" }
+		type consumer struct {
+			fn  *ssa.Function
+			ins ssa.Instruction
+		}
+		var cons []consumer
+		for _, f := range p.Funcs {
+			if !p.InRepo(f) {
+				continue
+			}
+			core.Instrs(f, func(ins ssa.Instruction) {
+				switch x := ins.(type) {
+				case *ssa.UnOp:
+					if x.Op == token.ARROW && isReq(chanOf(x.X)) {
+						cons = append(cons, consumer{f, ins})
+					}
+				case *ssa.Select:
+					for _, st := range x.States {
+						if st.Dir == types.RecvOnly && isReq(chanOf(st.Chan)) {
+							cons = append(cons, consumer{f, ins})
+						}
+					}
+				case *ssa.Call:
+					if len(x.Call.Args) > 0 && isReq(x.Call.Args[0]) {
+						if g := core.Callee(&x.Call); g != nil && chanReceives(g) {
+							cons = append(cons, consumer{f, ins})
+						}
+					}
+				case *ssa.Range:
+					if isReq(chanOf(x.X)) {
+						cons = append(cons, consumer{f, ins})
+					}
+				}
+			})
+		}
+		sizing := p.Method(p.Worker, "DefaultWorkerPool", "trySpawn")
+		if len(cons) == 0 || sizing == nil {
+			c.Unknown("R5", "spawn-requests", "-", "no consumer of the spawn-request channel / no sizing pass found")
+		} else {
+			isCons := map[ssa.Instruction]bool{}
+			for _, k := range cons {
+				isCons[k.ins] = true
+			}
+			for i, k := range cons {
+				key := fmt.Sprintf("%s/take#%d", core.FuncName(k.fn), i+1)
+				base := ""
+				if len(k.fn.Params) > 0 {
+					base = k.fn.Params[0].Name()
+				}
+				closed := flagEdge(p, base, "isClosed", true)
+				skip := func(b, s2 *ssa.BasicBlock) bool {
+					if closed(b, s2) {
+						return true
+					}
+					// the channel-closed edge of `v, ok := <-ch`
+					if iff, ok := b.Instrs[len(b.Instrs)-1].(*ssa.If); ok && len(b.Succs) == 2 {
+						if ex, isE := iff.Cond.(*ssa.Extract); isE && ex.Index == 1 && ex.Tuple == k.ins.(ssa.Value) && b.Succs[1] == s2 {
+							return true
+						}
+					}
+					return false
+				}
+				ok, bad := core.MustPassBefore(k.ins, func(ins ssa.Instruction) bool {
+					call, isC := ins.(*ssa.Call)
+					return isC && core.Callee(&call.Call) == sizing
+				}, func(ins ssa.Instruction) bool { return isCons[ins] }, skip)
+				where := ""
+				if bad != nil {
+					where = p.InstrPos(bad)
+				}
+				c.Check(ok, "R5", key, p.InstrPos(k.ins), "the request taken here is followed by a sizing pass before the next take / the end of the loop", "a spawn request taken here can be dropped: "+where+" is reached without a sizing pass (a worker killed by a panicking job, or a job accepted meanwhile, is then never given a worker)")
 			}
 		}
 	}
